@@ -270,7 +270,8 @@ def _mk_filter(fspec, rec, g):
                         revisit = fr.f_locals.get("update_parent") is not None
                         break
                     fr = fr.f_back
-        rec.append({"merged": merged, "revisit": revisit,"k": "S" if action is SHIFT else ("R" if action is REDUCE else "?"),
+        rec.append({"merged": merged, "revisit": revisit,
+                    "root_id": context.root.id if hasattr(context, "root") else None,"k": "S" if action is SHIFT else ("R" if action is REDUCE else "?"),
                     "from": from_state, "to": to_state, "prod": production,
                     "subs": list(subresults) if subresults is not None else None,
                     "subs_is_list": subresults is None or isinstance(subresults, list),
@@ -362,7 +363,8 @@ def _approved_errors_glr(forest, rec):
     for c in rec:
         if c["k"] == "R" and c["v"]:
             acc_r.setdefault(id(c["prod"]), []).append(c["subs"])
-    acc_s = set(id(c["token"]) for c in rec if c["k"] == "S" and c["v"])
+    # a shift link is identified by the token and the GSS node it starts from
+    acc_s = set((id(c["token"]), c["root_id"]) for c in rec if c["k"] == "S" and c["v"])
     seen = set()
     stack = [forest.result]
     while stack:
@@ -372,7 +374,7 @@ def _approved_errors_glr(forest, rec):
         seen.add(id(par))
         for poss in par.possibilities:
             if poss.is_term():
-                if poss.symbol.dynamic and id(poss.token) not in acc_s:
+                if poss.symbol.dynamic and (id(poss.token), par.root.id) not in acc_s:
                     errs.append("forest leaf %s@%d of a dynamic terminal has no accepted SHIFT call"
                                 % (poss.symbol.name, poss.start_position))
             else:
